@@ -50,46 +50,91 @@ func (x *Exec) qmisBattery() {
 	}
 	c := comps[0]
 	w := x.w
-	// typed Query1 over the first component, and the ID-based query
-	mk := func() TypedQuery {
-		ctor := filterCtors[c]
-		return ctor(w).Query()
+	// typed QueryN (N = 1..8: the first instantiated tuple of each arity within the model components; N = 1 over
+	// the first component), and the ID-based query
+	type qm struct {
+		api string
+		mk  func() TypedQuery
 	}
-	x.qmis("get-before-next", "typed", func() int64 { q := mk(); defer q.Close(); return *q.Get()[0] })
-	x.qmis("entity-before-next", "typed", func() int64 { q := mk(); defer q.Close(); return int64(q.Entity().ID()) })
-	x.qmis("get-after-end", "typed", func() int64 {
-		q := mk()
-		for q.Next() {
+	qms := []qm{{"typed", func() TypedQuery { return filterCtors[c](w).Query() }}}
+	for n := 2; n <= 8; n++ {
+		for _, t := range x.tupleSets() {
+			if len(t) != n {
+				continue
+			}
+			if ct := x.canonOrNil(t); ct != nil {
+				ctor := filterCtors[strings.Join(ct, ",")]
+				qms = append(qms, qm{fmt.Sprintf("typed%d", n), func() TypedQuery { return ctor(w).Query() }})
+				break
+			}
 		}
-		return *q.Get()[0]
-	})
-	x.qmis("next-after-end", "typed", func() int64 {
-		q := mk()
-		for q.Next() {
-		}
-		return b2i(q.Next())
-	})
-	x.qmis("next-after-close", "typed", func() int64 {
-		q := mk()
+	}
+	for _, m := range qms {
+		mk, api := m.mk, m.api
+		x.qmis("get-before-next", api, func() int64 { q := mk(); defer q.Close(); return *q.Get()[0] })
+		x.qmis("entity-before-next", api, func() int64 { q := mk(); defer q.Close(); return int64(q.Entity().ID()) })
+		x.qmis("get-after-end", api, func() int64 {
+			q := mk()
+			for q.Next() {
+			}
+			return *q.Get()[0]
+		})
+		x.qmis("next-after-end", api, func() int64 {
+			q := mk()
+			for q.Next() {
+			}
+			return b2i(q.Next())
+		})
+		x.qmis("next-after-close", api, func() int64 {
+			q := mk()
+			q.Next()
+			q.Close()
+			return b2i(q.Next())
+		})
+		x.qmis("next-after-immediate-close", api, func() int64 {
+			q := mk()
+			q.Close()
+			return b2i(q.Next())
+		})
+		x.qmis("get-after-close", api, func() int64 {
+			q := mk()
+			ok := q.Next()
+			q.Close()
+			if !ok {
+				return -1
+			}
+			return *q.Get()[0]
+		})
+		x.qmis("entity-after-close", api, func() int64 {
+			q := mk()
+			ok := q.Next()
+			q.Close()
+			if !ok {
+				return -1
+			}
+			return int64(q.Entity().ID())
+		})
+		x.qmis("close-twice", api, func() int64 { q := mk(); q.Close(); q.Close(); return b2i(w.IsLocked()) })
+		x.qmis("close-after-end", api, func() int64 {
+			q := mk()
+			for q.Next() {
+			}
+			q.Close()
+			return b2i(w.IsLocked())
+		})
+	}
+	x.qmis("next-after-close", "query0", func() int64 {
+		q := ecs.NewFilter0(w).Query()
 		q.Next()
 		q.Close()
 		return b2i(q.Next())
 	})
-	x.qmis("next-after-immediate-close", "typed", func() int64 {
-		q := mk()
-		q.Close()
+	x.qmis("next-after-end", "query0", func() int64 {
+		q := ecs.NewFilter0(w).Query()
+		for q.Next() {
+		}
 		return b2i(q.Next())
 	})
-	x.qmis("get-after-close", "typed", func() int64 {
-		q := mk()
-		ok := q.Next()
-		q.Close()
-		if !ok {
-			return -1
-		}
-		return *q.Get()[0]
-	})
-	x.qmis("close-twice", "typed", func() int64 { q := mk(); q.Close(); q.Close(); return b2i(w.IsLocked()) })
 	uq := func() ecs.UnsafeQuery { return ecs.NewUnsafeFilter(w, x.ids[c]).Query() }
 	x.qmis("get-before-next", "unsafe", func() int64 { q := uq(); defer q.Close(); return *x.payload(c, q.Get(x.ids[c])) })
 	x.qmis("next-after-close", "unsafe", func() int64 {
